@@ -68,7 +68,9 @@ def gen_header(rng, ncomps=None, same_format=None, big=False):
     ncomps = ncomps if ncomps is not None else rng.choice([1, 1, 2, 3])
     fmt = same_format if same_format is not None else (rng.choice(["XYC", "XYZC", "XC", "XYZWC"]) if rng.random() < 0.6 else None)
     dim = lambda: rng.choice([0, 1, 255, 256, 640, 32767, 32768, 65535])
-    return {"version": V02, "width": dim(), "height": dim(), "depth": dim(),
+    # the version a pose object carries is not what gets written (the writer always writes 0.2): poses read from legacy files carry 0.1 / 0.0
+    version = V02 if rng.random() < 0.8 else rng.choice([V01, 0, 0x3F800000, 0x3F000000])
+    return {"version": version, "width": dim(), "height": dim(), "depth": dim(),
             "components": [gen_comp(rng, fmt, big=big) for _ in range(ncomps)]}
 
 
@@ -89,7 +91,8 @@ def gen_body(rng, header, frames=None, people=None, fps=None, pzero=0.3):
     if dims is None or dims < 0:
         dims = 2                       # a header without usable formats: any body mismatches it
     n = frames * people * points
-    fpsb = fps if fps is not None else rng.choice([0x41C80000, 0x41F00000, 0x41EFC28F, 0x3F000000, 0, 0x447A0000, 0xC1C80000, 0x7FC00000, 0x7F800000])
+    fpsb = fps if fps is not None else rng.choice([0x41C80000, 0x41F00000, 0x41EFC28F, 0x3F000000, 0, 0x447A0000, 0xC1C80000, 0x7FC00000, 0x7F800000,
+                                                   0x41BFCEE6, 0x3EAAAAAB, 0x426FC29F, 0x3991A2B4])       # 24000/1001, 1/3, 60000/1001, 1/3600: more than three decimals
     return {"fps": {"f32": fpsb}, "frames": frames, "people": people, "points": points, "dims": dims,
             "data": [f32_bits(rng) for _ in range(n * dims)], "conf": [conf_bits(rng, pzero) for _ in range(n)]}
 
